@@ -360,6 +360,13 @@ example : (clientCalls svc0 { emitPackage := true }).map (·.path) =
 example : (clientCalls svc0 { emitPackage := false }).map (·.path) =
     [bs "/Greeter/SayHello", bs "/Greeter/Watch", bs "/Greeter/Upload", bs "/Greeter/Type"] := by decide
 example : (svc0.methods.map (·.ident)).Nodup := by decide
+/-- a package spelled with a leading dot (what `manual::Service::package` accepts and prost never
+produces; seed C11j): route, client path and advertised name keep the dot alike -/
+example : (clientCalls { svc0 with package := bs ".helloworld" } { emitPackage := true }).map (·.path) =
+    [bs "/.helloworld.Greeter/SayHello", bs "/.helloworld.Greeter/Watch", bs "/.helloworld.Greeter/Upload",
+     bs "/.helloworld.Greeter/Type"] ∧
+    serviceNameConst { svc0 with package := bs ".helloworld" } { emitPackage := true } = bs ".helloworld.Greeter" := by
+  decide
 example : C10.WellFormed [serverOf svc0 { emitPackage := true }, ⟨bs "a.b", [bs "Greeter"]⟩] := by
   refine ⟨by decide, by decide, by decide⟩
 example : DefOk svc0 { emitPackage := true } := by
